@@ -17,3 +17,5 @@ def install_all(reg):
     succession_diagram._install_skip4(reg)
     algorithms.install(reg)
     algorithms.install_skipnode(reg)
+    algorithms.install_target(reg)
+    algorithms.install_dfs(reg)
